@@ -61,6 +61,7 @@ fn issuer_doc(did: &str, key1: &Key, with_bitmap: bool) -> CoreDocument {
     "id": did,
     "verificationMethod": [method_json(&format!("{}#k1", did), did, key1), method_json(&format!("{}#kf", FOREIGN), FOREIGN, &kf())],
     "assertionMethod": [format!("{}#k1", did)],
+    "capabilityInvocation": [format!("{}#k1", did)],
     "authentication": [method_json(&format!("{}#k2", did), did, &k2())],
     "service": services,
   });
@@ -102,6 +103,7 @@ struct Plan {
   fail_fast: bool,
   rich: bool,          // use the rich generator for the remaining optional fields
   expiry_in_vc_only: bool, // carry the expiration as vc.expirationDate without an exp claim (a form foreign issuers produce)
+  iat: Option<i64>,        // an additional `iat` claim at nbf + this many seconds (nbf stays the issuance date)
 }
 
 const BOUND_ISS: i64 = 1_700_000_000;
@@ -131,6 +133,7 @@ impl Plan {
       fail_fast: rng.bool(),
       rich: rng.chance(1, 3),
       expiry_in_vc_only: false,
+      iat: *rng.pick(&[None, None, Some(-2_000_000_000i64), Some(-1), Some(3), Some(2_000_000_000)]),
     }
   }
 
@@ -140,6 +143,8 @@ impl Plan {
       2 => Some(MethodScope::VerificationRelationship(MethodRelationship::AssertionMethod)),
       3 => Some(MethodScope::VerificationRelationship(MethodRelationship::Authentication)),
       4 => Some(MethodScope::VerificationRelationship(MethodRelationship::KeyAgreement)),
+      5 => Some(MethodScope::VerificationRelationship(MethodRelationship::CapabilityInvocation)),
+      6 => Some(MethodScope::VerificationRelationship(MethodRelationship::CapabilityDelegation)),
       _ => None,
     }
   }
@@ -166,8 +171,8 @@ impl Plan {
       0 | 1 => {
         let in_scope = match (lookup, self.scope) {
           (_, 0) => true,
-          (0, 1) | (0, 2) => true,
-          (1, 3) => true,
+          (0, 1) | (0, 2) | (0, 5) => true, // #k1: general purpose, referenced from assertionMethod and capabilityInvocation
+          (1, 3) => true,                   // #k2: embedded in authentication only
           _ => false,
         };
         if !in_scope {
@@ -275,6 +280,7 @@ fn build(rng: &mut Rng, p: &Plan) -> Built {
   let issuer = match p.issuer_claim {
     1 => "did:example:someone-else",
     2 => "https://issuer.example.edu/issuers/14",
+    4 => "did:example:ISSUER", // differs from the document id in letter case only: another DID
     _ => ISSUER,
   };
   let issuance = BOUND_ISS + p.issuance_delta;
@@ -340,6 +346,9 @@ fn build(rng: &mut Rng, p: &Plan) -> Built {
       claims_map.remove("exp");
       claims_map["vc"]["expirationDate"] = json!(credgen::rfc3339(e));
     }
+  }
+  if let Some(d) = p.iat {
+    claims_map.insert("iat".into(), json!(issuance + d));
   }
   let claims = Value::Object(claims_map);
 
@@ -434,6 +443,38 @@ fn build(rng: &mut Rng, p: &Plan) -> Built {
     3 => o = o.subject_holder_relationship(holder, SubjectHolderRelationship::Any),
     _ => {}
   }
+  // A quarter of the scenarios hand the options over as the documented camelCase JSON (the form the bindings use)
+  // instead of through the builder; the member names are written out by the harness.
+  if rng.chance(1, 4) {
+    let mut j = Map::new();
+    j.insert("earliestExpiryDate".into(), json!(credgen::rfc3339(BOUND_EXP)));
+    j.insert("latestIssuanceDate".into(), json!(credgen::rfc3339(BOUND_ISS)));
+    j.insert("status".into(), json!(p.status_mode.min(2)));
+    if p.holder_mode != 0 {
+      j.insert("subjectHolderRelationship".into(), json!([if p.holder_is_subject { subject } else { "did:example:another-holder" }, p.holder_mode - 1]));
+    }
+    let mut v = Map::new();
+    match p.nonce_opt {
+      1 => {
+        v.insert("nonce".into(), json!("a"));
+      }
+      2 => {
+        v.insert("nonce".into(), json!("b"));
+      }
+      _ => {}
+    }
+    if let Some(sc) = p.scope_value() {
+      v.insert("methodScope".into(), serde_json::to_value(sc).unwrap());
+    }
+    if let Some(mid) = &o.verification_options.method_id {
+      v.insert("methodId".into(), json!(mid.to_string()));
+    }
+    j.insert("verificationOptions".into(), Value::Object(v));
+    match serde_json::from_value::<JwtCredentialValidationOptions>(Value::Object(j)) {
+      Ok(parsed) => o = parsed,
+      Err(_) => {} // counted by the caller through the options echo in the case description
+    }
+  }
   Built { token, spec, custom, options: o, header }
 }
 
@@ -442,9 +483,9 @@ fn mutate_one(rng: &mut Rng, p: &mut Plan, which: u64) {
     0 => p.sig = 1 + rng.below(3) as u8,
     1 => p.kid = *rng.pick(&[1u8, 2, 3, 5, 6, 6]),
     2 => p.method_id_override = 2 + rng.below(3) as u8,
-    3 => p.scope = 1 + rng.below(4) as u8,
+    3 => p.scope = 1 + rng.below(6) as u8,
     4 => p.kid = 4,
-    5 => p.issuer_claim = 1 + rng.below(2) as u8,
+    5 => p.issuer_claim = *rng.pick(&[1u8, 2, 4, 4]),
     6 => {
       p.nonce_hdr = rng.below(3) as u8;
       p.nonce_opt = (p.nonce_hdr + 1 + rng.below(2) as u8) % 3;
@@ -476,7 +517,7 @@ fn mutate_one(rng: &mut Rng, p: &mut Plan, which: u64) {
     }
     13 => {
       // legal scope that contains the method
-      p.scope = if p.method == 0 { 1 + rng.below(2) as u8 } else { 3 };
+      p.scope = if p.method == 0 { *rng.pick(&[1u8, 2, 5]) } else { 3 };
     }
     15 => {
       // the expiration travels only inside vc (no exp claim): expired => must be rejected, otherwise either verdict
